@@ -197,7 +197,11 @@ def e2e_check(job):
     # a random model makes the NET energy small (-0.6 Ha of contributions summing |.| to ~8 Ha), and the round-off of the two paths
     # (1.5e-12 relative per point, coherent in the core) is relative to the contributions, not to the net
     from pyscf.dft import numint as pni
-    esc = 0.7386 * float(np.dot(kr.grids.weights, np.maximum(pni.eval_rho(mol, pni.eval_ao(mol, kr.grids.coords), D + Da + Db), 0) ** (4.0 / 3)))
+    ao0 = pni.eval_ao(mol, kr.grids.coords)
+    rho0 = np.maximum(pni.eval_rho(mol, ao0, D + Da + Db), 0)
+    esc = 0.7386 * float(np.dot(kr.grids.weights, rho0 ** (4.0 / 3)))
+    # the same for the matrix elements: sums over the grid of |phi_i phi_j| times a local potential of the size of the LDA one
+    sc = sc + float((np.abs(ao0).T @ ((kr.grids.weights * rho0 ** (1.0 / 3))[:, None] * np.abs(ao0))).max())
     if abs(eu - er) > TOL * (1 + abs(er) + esc) or np.abs(vu[0] - vr).max() > 1e-9 * sc or np.abs(vu[1] - vr).max() > 1e-9 * sc:
         viol.append({"site": "e2e:rks-vs-uks-halves:" + tag, "detail": {"cfg": cfg, "dE": float(eu - er), "dv_a": float(np.abs(vu[0] - vr).max()),
                                                                          "dv_b": float(np.abs(vu[1] - vr).max())}})
